@@ -2,6 +2,8 @@ package j5convert
 
 import (
 	"strings"
+	"unicode"
+	"unicode/utf8"
 
 	"github.com/pentops/golib/gl"
 	"github.com/pentops/j5/gen/j5/ext/v1/ext_j5pb"
@@ -43,4 +45,65 @@ func (e *enumBuilder) addValue(number int32, schema *schema_j5pb.Enum_Option) {
 		e.comment([]int32{2, number}, schema.Description)
 	}
 
+}
+
+// mirrors the buf check for conflicting enum value names, which in turn mirrors the algorithm in protoc:
+// https://github.com/bufbuild/protocompile/blob/v0.14.1/linker/validate.go#L507
+// https://github.com/protocolbuffers/protobuf/blob/v21.3/src/google/protobuf/descriptor.cc#L887
+//
+// canonicalEnumValueName is the name of an enum value with the
+// name of the enum removed as a prefix, in upper camel case. A proto3 enum may
+// not hold two values with the same canonical name and different numbers.
+func canonicalEnumValueName(enumValueName, enumName string) string {
+	return enumValCamelCase(removePrefix(enumValueName, enumName))
+}
+
+// removePrefix mirrors protoc: removes prefix from str, ignoring case and
+// underscores. Returns str unchanged if it does not have the prefix, or if
+// nothing but underscores would remain.
+func removePrefix(str, prefix string) string {
+	j := 0
+	for i, r := range str {
+		if r == '_' {
+			continue
+		}
+
+		p, sz := utf8.DecodeRuneInString(prefix[j:])
+		for p == '_' {
+			j += sz
+			p, sz = utf8.DecodeRuneInString(prefix[j:])
+		}
+
+		if j == len(prefix) {
+			result := strings.TrimLeft(str[i:], "_")
+			if len(result) == 0 {
+				return str
+			}
+			return result
+		}
+		if unicode.ToLower(r) != unicode.ToLower(p) {
+			return str
+		}
+		j += sz
+	}
+	return str
+}
+
+// enumValCamelCase mirrors protoc: converts name to upper camel case.
+func enumValCamelCase(name string) string {
+	var js []rune
+	nextUpper := true
+	for _, r := range name {
+		if r == '_' {
+			nextUpper = true
+			continue
+		}
+		if nextUpper {
+			nextUpper = false
+			js = append(js, unicode.ToUpper(r))
+		} else {
+			js = append(js, unicode.ToLower(r))
+		}
+	}
+	return string(js)
 }
